@@ -125,3 +125,11 @@ reg("C13", "sched", "model_checking",
     "with the right arguments, at the virtual instant its last byte arrived.",
     "Trusted: the simulated kernel (mc/tnet.py: TCP coalescing, TLS record semantics, selector readiness) and the scheduler's virtual clock (mc/sched.py).",
     "DESIGN.md section 6 C13")
+
+reg("C14", "sched", "model_checking",
+    "scenario enumeration (every way of ending a run) x systematic schedule exploration (iterative preemption bounding at synchronisation points; for the closer thread also at every executed library line) of the real run_forever under a controlled scheduler in virtual time",
+    "27 endings (server close with/without body, EOF, reset, protocol/payload errors, ping timeout, refused, rejected handshake, close() from each callback x 3 server reactions, "
+    "KeyboardInterrupt in callbacks) x ping thread on/off x plain/TLS, plus close() from a second thread preempting the loop at every scheduling point and every line: "
+    "run_forever returns, on_close exactly once and last with the server's code/reason, return value = error reported, sockets and ping thread gone at return, second run behaves like a fresh object.",
+    "Trusted: scheduler + simulated kernel (mc/sched.py, mc/tnet.py). Known findings: close() from another thread while the opening handshake is in progress (see known_findings.jsonl).",
+    "DESIGN.md section 6 C14")
